@@ -474,24 +474,76 @@ func C27(c *Ctx) {
 				n++
 				meth := CalleeObj(ci.Common()).Name()
 				root := Root(f).Name()
-				okk := (meth == "Add" && (root == "Reserve" || root == "Alloc" || root == "Next")) || (meth == "Store" && strings.HasPrefix(root, "New"))
-				c.Decide(okk, r1, owner+"."+t[2]+"#"+meth+"@"+FuncName(Root(f)), ci.Pos(), 1, "allocation by Add / construction by Store", owner+"."+t[2]+" is modified by "+meth+" in "+FuncName(Root(f)))
+				alloc := root == "Reserve" || root == "Alloc" || root == "Next"
+				okk := ((meth == "Add" || meth == "CompareAndSwap") && alloc) || (meth == "Store" && strings.HasPrefix(root, "New"))
+				c.Decide(okk, r1, owner+"."+t[2]+"#"+meth+"@"+FuncName(Root(f)), ci.Pos(), 1, "allocation by Add / CompareAndSwap, construction by Store", owner+"."+t[2]+" is modified by "+meth+" in "+FuncName(Root(f)))
 			}
 		}
 		c.Floor(r1, n, 3, "mutators of "+owner+"."+t[2])
-		if fn := c.Fn(t[0], t[1]+".Reserve"); fn != nil {
-			adds := Calls(fn, false, Named("(*sync/atomic.Uint64).Add"))
-			c.Decide(len(adds) == 1, r1, key(fn, "single-Add"), fn.Pos(), 1, "one atomic Add per reservation", fmt.Sprintf("%d Add calls in Reserve", len(adds)))
-			if len(adds) == 1 {
-				// first = last - n + 1
+		if fn := c.Fn(t[0], t[1]+".Reserve"); fn != nil && len(fn.Params) >= 2 {
+			var muts []ssa.CallInstruction
+			for _, ci := range Calls(fn, false, Named("(*sync/atomic.Uint64).Add", "(*sync/atomic.Uint64).CompareAndSwap")) {
+				muts = append(muts, ci)
+			}
+			c.Decide(len(muts) == 1, r1, key(fn, "single-Add"), fn.Pos(), 1, "one atomic update per reservation", fmt.Sprintf("%d atomic updates in Reserve", len(muts)))
+			if len(muts) == 1 {
+				m := muts[0]
+				nParam := fn.Params[1]
+				isCAS := CalleeObj(m.Common()).Name() == "CompareAndSwap"
+				// the value the reservation is derived from: the Add result, or the CAS's new value
+				var base map[ssa.Value]bool
+				if isCAS {
+					base = map[ssa.Value]bool{m.Common().Args[len(m.Common().Args)-1]: true, m.Common().Args[len(m.Common().Args)-2]: true}
+				} else {
+					base = valuesOf(muts)
+				}
 				good := false
 				for _, r := range Returns(fn) {
-					if IsNilConst(RetVal(r, 2)) && derivedFrom(RetVal(r, 0), valuesOf(adds), 5) {
+					if IsNilConst(RetVal(r, 2)) && derivedFrom(RetVal(r, 0), base, 5) {
 						good = true
 					}
 				}
-				c.Decide(good, r1, key(fn, "first=Add(n)-n+1"), fn.Pos(), 1, "the returned range derives from the Add result", "Reserve's first value is not derived from the atomic Add result")
-				c.Decide(adds[0].Common().Args[1] == fn.Params[1], r1, key(fn, "Add(n)"), adds[0].Pos(), 1, "adds exactly the requested count", "Reserve does not Add the requested count")
+				c.Decide(good, r1, key(fn, "first=Add(n)-n+1"), fn.Pos(), 1, "the returned range derives from the atomic update", "Reserve's first value is not derived from the atomic update's result")
+				if isCAS {
+					// new = old + n, and a failed swap does not reach a success return without swapping again
+					nv := m.Common().Args[len(m.Common().Args)-1]
+					af := AffineOf(nv, m.Common().Args[len(m.Common().Args)-2], nParam)
+					c.Decide(af.Terms[nParam] == 1 && af.Terms[m.Common().Args[len(m.Common().Args)-2]] == 1 && af.K == 0, r1, key(fn, "Add(n)"), m.Pos(), 1, "adds exactly the requested count", "Reserve does not swap in old+n")
+					retried := true
+					for e := range boolValueEdges(fn, m.Value(), false) {
+						for _, r := range Returns(fn) {
+							if IsNilConst(RetVal(r, 2)) {
+								if reach, _ := reachFromBlock(fn, e[1], r, []ssa.Instruction{m.(ssa.Instruction)}); reach {
+									retried = false
+								}
+							}
+						}
+					}
+					c.Decide(retried, r1, key(fn, "CAS-failure→retry"), m.Pos(), 2, "a lost race is retried", "a failed CompareAndSwap reaches a success return without another attempt (a range would be handed out that was not reserved)")
+				} else {
+					c.Decide(m.Common().Args[1] == ssa.Value(nParam), r1, key(fn, "Add(n)"), m.Pos(), 1, "adds exactly the requested count", "Reserve does not Add the requested count")
+				}
+				// the counter must not wrap: with n above what is left the update is unreachable
+				role := func(v ssa.Value) string {
+					v = Unwrap(v)
+					if v == ssa.Value(nParam) {
+						return "n"
+					}
+					if bo, ok := v.(*ssa.BinOp); ok && bo.Op == token.SUB {
+						if k, isK := bo.X.(*ssa.Const); isK && k.Value != nil && k.Value.ExactString() == "18446744073709551615" {
+							return "room"
+						}
+					}
+					return ""
+				}
+				reach := func(sg int) bool {
+					signs := map[string]int{}
+					SetSign(signs, "n", "room", sg)
+					SetSign(signs, "n", "0", 1)
+					return (&SignEnv{Role: role, Signs: signs, Depth: 1}).Reaches(fn, m.(ssa.Instruction))
+				}
+				c.Decide(!reach(1) && reach(0) && reach(-1), r1, key(fn, "no-wrap:n<=Max-current"), m.Pos(), 3, "a count larger than what is left is refused before the counter is touched",
+					"Reserve updates the counter for any count: a request for more than MaxUint64-current (count = MaxUint64 is accepted from the client) wraps the counter, and the next calls hand out values that were issued before")
 			}
 		}
 	}
@@ -560,6 +612,26 @@ func C27(c *Ctx) {
 		underLock(c, r3, fn, ls, "WriteFile", instrs(wf), "pd/storage.LocalStore.stateMu", false)
 		underLock(c, r3, fn, ls, "Rename", instrs(rn), "pd/storage.LocalStore.stateMu", false)
 		beforeOK(c, r3, fn, "WriteFile(tmp)", Named("(vfs.FS).WriteFile"), "Rename(tmp,state)", Named("(vfs.FS).Rename"), 1)
+		// durability: the temp file is synced (File.Sync()==nil, directly or in a helper whose success
+		// implies it) before the rename, and the directory after it, before the saved mark moves
+		fsyncs := verifySites(c, fn, Named("(vfs.File).Sync"), 1)
+		for i, r := range rn {
+			k := key(fn, fmt.Sprintf("Rename[%d]<-ok(File.Sync)", i+1))
+			if len(fsyncs) == 0 {
+				c.Fail(r3, k, r.Pos(), 1, "the checkpoint's temporary file is renamed over the old checkpoint without being synced: Tso / AllocID reply right afterwards, and after a power loss the rename can survive while the data does not (an empty checkpoint, accepted as a fresh store: every value is handed out again)")
+			} else {
+				succOK(c, r3, k, fn, fsyncs, "File.Sync", r.(ssa.Instruction), "Rename")
+			}
+		}
+		dsyncs := verifySites(c, fn, Named("vfs.SyncDir"), 1)
+		for i, st := range fieldStoresIn(fn, false, "pd/storage.LocalStore", "saved") {
+			k := key(fn, fmt.Sprintf("saved-update[%d]<-ok(SyncDir)", i+1))
+			if len(dsyncs) == 0 {
+				c.Fail(r3, k, st.Pos(), 1, "the replacement of the checkpoint is not made durable (no directory sync after the rename)")
+			} else {
+				succOK(c, r3, k, fn, dsyncs, "SyncDir", st, "saved high-water mark update")
+			}
+		}
 		for i, r := range rn {
 			ev := ErrResult(r)
 			c.Decide(ev != nil && ev.Referrers() != nil && len(*ev.Referrers()) > 0, r3, key(fn, fmt.Sprintf("Rename[%d]#error-used", i+1)), r.Pos(), 1, "rename error is reported", "Rename's error is dropped")
@@ -605,6 +677,46 @@ func C27(c *Ctx) {
 		for i, st := range fieldStoresIn(fn, false, "pd/storage.LocalStore", "saved") {
 			succOK(c, r3, key(fn, fmt.Sprintf("saved-update[%d]<-ok(Rename)", i+1)), fn, rn, "Rename", st, "saved high-water mark update")
 		}
+	}
+
+	if fn := c.Fn("pd/storage", "LocalStore.loadAllocatorState"); fn != nil {
+		// an existing but empty checkpoint file is an error: the len(data)==0 edge reaches no nil-error return
+		bad, n := false, 0
+		for _, b := range fn.Blocks {
+			ifi := ifOf(b)
+			if ifi == nil {
+				continue
+			}
+			bo, ok := ifi.Cond.(*ssa.BinOp)
+			if !ok || (bo.Op != token.EQL && bo.Op != token.NEQ) {
+				continue
+			}
+			call, isCall := bo.X.(*ssa.Call)
+			if !isCall {
+				continue
+			}
+			if bi, isB := call.Call.Value.(*ssa.Builtin); !isB || bi.Name() != "len" {
+				continue
+			}
+			if z, isK := ConstInt(bo.Y); !isK || z != 0 {
+				continue
+			}
+			n++
+			empty := b.Succs[0]
+			if bo.Op == token.NEQ {
+				empty = b.Succs[1]
+			}
+			for _, r := range Returns(fn) {
+				if !ProvablyNonNil(RetVal(r, 1), r, 0) {
+					if reach, _ := reachFromBlock(fn, empty, r, nil); reach && !EdgeDominates(b, otherSucc(b, empty), r.Block()) {
+						if r.Block() == empty || blockReaches(empty, r.Block()) && len(r.Block().Preds) == 1 {
+							bad = true
+						}
+					}
+				}
+			}
+		}
+		c.Decide(n == 0 || !bad, r3, key(fn, "empty-checkpoint→error"), fn.Pos(), n+1, "an existing but empty checkpoint is not taken for a fresh store", "loadAllocatorState answers {0,0} with a nil error for an existing but empty checkpoint file: PD restarts at 1 and hands every timestamp and id out again")
 	}
 
 	const r4 = "K1.restart-above-checkpoint"
@@ -825,4 +937,11 @@ func paramField(v ssa.Value) (*ssa.Parameter, string, bool) {
 		}
 	}
 	return nil, "", false
+}
+
+func otherSucc(b, s *ssa.BasicBlock) *ssa.BasicBlock {
+	if b.Succs[0] == s {
+		return b.Succs[1]
+	}
+	return b.Succs[0]
 }
